@@ -314,4 +314,34 @@ example :
 
 end Examples
 
+/-! ### 9. The object: every call evaluates the message afresh (fix 35d217e) -/
+
+/-- whatever cursor state earlier calls left in the object, `ExtractMatches` answers exactly as the one-shot
+evaluation `extractMsg` of the message does: root, match list, positions and the bad flag -/
+theorem C12_repeatable {H : Type} [DecidableEq H] (comb : H → H → H) (zero : H) (pb : PartialBlock H) :
+    let (r, pb') := pb.ExtractMatches comb zero
+    let e := extractMsg comb zero pb.msg
+    r = e.root ∧ pb'.msg = pb.msg ∧
+      (e.root.isSome → pb'.st.matchedHashes = e.matches_ ∧ pb'.st.matchedItems = e.items ∧ pb'.st.bad = e.bad) := by
+  simp only [PartialBlock.ExtractMatches, extractFrom, extractMsg]
+  repeat' split
+  all_goals simp_all
+
+/-- hence any number of calls returns the same root -/
+theorem C12_repeat_twice {H : Type} [DecidableEq H] (comb : H → H → H) (zero : H) (pb : PartialBlock H) :
+    ((pb.ExtractMatches comb zero).2.ExtractMatches comb zero).1 = (pb.ExtractMatches comb zero).1 := by
+  have h1 := C12_repeatable comb zero pb
+  have h2 := C12_repeatable comb zero (pb.ExtractMatches comb zero).2
+  simp only at h1 h2
+  rw [h2.1, h1.1, h1.2.1]
+
+/-- negative witness (the code before the fix): on the rejected message (2 transactions, hashes [10, 11], flags 00)
+the second call continued behind the first one and returned the unused hash 11 as the merkle root -/
+example :
+    let pb : PartialBlock Nat := { msg := ⟨2, [10, 11], [0x00]⟩ }
+    (pb.ExtractMatchesNoReset Bch.Proofs.Merkle.exComb 0).1 = none ∧
+    ((pb.ExtractMatchesNoReset Bch.Proofs.Merkle.exComb 0).2.ExtractMatchesNoReset Bch.Proofs.Merkle.exComb 0).1 = some 11 ∧
+    ((pb.ExtractMatches Bch.Proofs.Merkle.exComb 0).2.ExtractMatches Bch.Proofs.Merkle.exComb 0).1 = none := by
+  refine ⟨by rfl, by rfl, by rfl⟩
+
 end Bch.Props.C12
